@@ -276,3 +276,266 @@ theorem chainFinal_lookup (ksOf : AStage K V X R → List K) (gOf : AStage K V X
 end Chain
 
 end MlModel.StrategyObs
+
+/-! ## `merge_states`, `get_result` -/
+
+namespace MlModel.StrategyObs
+open MlModel.Agg
+
+section Merge
+variable {K V X R : Type} [DecidableEq K]
+
+theorem lookupLast_setKey_ne (s : KV K V) (k k' : K) (v : V) (h : k' ≠ k) :
+    lookupLast k (setKey s k' v) = lookupLast k s := by
+  induction s with
+  | nil => rfl
+  | cons kv s ih =>
+    obtain ⟨k0, v0⟩ := kv
+    simp only [setKey, List.map_cons] at ih ⊢
+    by_cases h0 : k0 = k'
+    · subst h0
+      simp only [if_true, lookupLast, ih, if_neg h]
+    · simp only [if_neg h0, lookupLast, ih]
+
+theorem lookupLast_eq_none_iff (k : K) (s : KV K V) : lookupLast k s = none ↔ k ∉ s.map Prod.fst := by
+  constructor
+  · intro h
+    induction s with
+    | nil => simp
+    | cons kv s ih =>
+      obtain ⟨k0, v0⟩ := kv
+      simp only [lookupLast] at h
+      cases hs : lookupLast k s with
+      | some w => rw [hs] at h; simp at h
+      | none =>
+        rw [hs] at h
+        simp only [] at h
+        by_cases h0 : k0 = k
+        · simp [h0] at h
+        · simp only [List.map_cons, List.mem_cons, not_or]
+          exact ⟨fun e => h0 e.symm, ih hs⟩
+  · exact lookupLast_none_of_not_mem k s
+
+theorem setKey_keys (s : KV K V) (k : K) (v : V) : (setKey s k v).map Prod.fst = s.map Prod.fst := by
+  unfold setKey
+  rw [List.map_map]
+  apply List.map_congr_left
+  intro kv _
+  simp only [Function.comp]
+  by_cases h : kv.1 = k
+  · simp [h]
+  · simp [h]
+
+theorem lookupLast_setKey_eq (s : KV K V) (k : K) (v a : V) (h : lookupLast k s = some a) :
+    lookupLast k (setKey s k v) = some v := by
+  induction s generalizing a with
+  | nil => simp [lookupLast] at h
+  | cons kv s ih =>
+    obtain ⟨k0, v0⟩ := kv
+    have hcons : setKey ((k0, v0) :: s) k v = (if k0 = k then (k, v) else (k0, v0)) :: setKey s k v := rfl
+    rw [hcons]
+    simp only [lookupLast] at h
+    cases hs : lookupLast k s with
+    | some w =>
+      have h1 := ih w hs
+      simp only [lookupLast, h1]
+    | none =>
+      rw [hs] at h
+      simp only [] at h
+      have hn : lookupLast k (setKey s k v) = none := by
+        rw [lookupLast_eq_none_iff, setKey_keys, ← lookupLast_eq_none_iff]
+        exact hs
+      by_cases h0 : k0 = k
+      · simp only [h0, if_true, lookupLast, hn]
+      · simp [h0] at h
+
+theorem lookupLast_snoc (s : KV K V) (k k' : K) (v : V) :
+    lookupLast k (s ++ [(k', v)]) = if k' = k then some v else lookupLast k s := by
+  rw [lookupLast_append]
+  simp only [lookupLast]
+  by_cases h : k' = k
+  · simp [h]
+  · simp [h]
+
+/-- how one more value under a key enters the merged entry -/
+def comb (f : V → V → V) : Option V → V → Option V
+  | none, b => some b
+  | some a, b => some (f a b)
+
+/-- the merged entry of a list of values: `none` for no value, else the left fold of `merge_states([acc, s])` -/
+def mergeVals (f : V → V → V) : List V → Option V
+  | [] => none
+  | a :: rest => some (rest.foldl f a)
+
+theorem foldl_comb (f : V → V → V) (vals : List V) (a : V) :
+    vals.foldl (comb f) (some a) = some (vals.foldl f a) := by
+  induction vals generalizing a with
+  | nil => rfl
+  | cons b vals ih => simp only [List.foldl_cons, comb, ih]
+
+theorem foldl_comb_none (f : V → V → V) (vals : List V) : vals.foldl (comb f) none = mergeVals f vals := by
+  cases vals with
+  | nil => rfl
+  | cons a rest => simp only [List.foldl_cons, comb, foldl_comb, mergeVals]
+
+/-- the loop of `TransformRunner.merge_states` over any list of items, seen through one own key -/
+theorem foldl_mergeItem_own (st : AStage K V X R) (k : K) (hk : k ∈ st.keys) (items : KV K V) :
+    ∀ acc : KV K V, lookupLast k (items.foldl st.mergeItem acc)
+      = ((items.filter fun kv => decide (kv.1 = k)).map (·.2)).foldl (comb (st.merge k)) (lookupLast k acc) := by
+  induction items with
+  | nil => intro acc; rfl
+  | cons kv items ih =>
+    intro acc
+    obtain ⟨k', v'⟩ := kv
+    rw [List.foldl_cons, ih]
+    by_cases hkk : k' = k
+    · subst hkk
+      have hstep : lookupLast k' (st.mergeItem acc (k', v')) = comb (st.merge k') (lookupLast k' acc) v' := by
+        unfold AStage.mergeItem
+        simp only [hk, if_true]
+        cases hl : lookupLast k' acc with
+        | some a => simp only [comb]; exact lookupLast_setKey_eq acc k' _ a hl
+        | none => simp only [comb]; rw [lookupLast_snoc]; simp
+      simp only [List.filter_cons, decide_true, if_true, List.map_cons, List.foldl_cons, hstep]
+    · have hstep : lookupLast k (st.mergeItem acc (k', v')) = lookupLast k acc := by
+        unfold AStage.mergeItem
+        by_cases hown : k' ∈ st.keys
+        · simp only [hown, if_true]
+          cases hl : lookupLast k' acc with
+          | some a => simp only []; exact lookupLast_setKey_ne acc k k' _ hkk
+          | none => simp only []; rw [lookupLast_snoc, if_neg hkk]
+        · simp only [hown, if_false]
+      have hd : decide (k' = k) = false := by simpa using hkk
+      simp only [List.filter_cons, hd, Bool.false_eq_true, if_false, hstep]
+
+/-- … and through a key that is NOT the runner's: nothing is ever stored under it -/
+theorem foldl_mergeItem_foreign (st : AStage K V X R) (k : K) (hk : k ∉ st.keys) (items : KV K V) :
+    ∀ acc : KV K V, lookupLast k (items.foldl st.mergeItem acc) = lookupLast k acc := by
+  induction items with
+  | nil => intro acc; rfl
+  | cons kv items ih =>
+    intro acc
+    obtain ⟨k', v'⟩ := kv
+    rw [List.foldl_cons, ih]
+    unfold AStage.mergeItem
+    by_cases hown : k' ∈ st.keys
+    · have hkk : k' ≠ k := fun e => hk (e ▸ hown)
+      simp only [hown, if_true]
+      cases hl : lookupLast k' acc with
+      | some a => simp only []; exact lookupLast_setKey_ne acc k k' _ hkk
+      | none => simp only []; rw [lookupLast_snoc, if_neg hkk]
+    · simp only [hown, if_false]
+
+theorem mergeStates_eq_foldl (st : AStage K V X R) (states : List (KV K V)) :
+    st.mergeStates states = states.flatten.foldl st.mergeItem [] := by
+  unfold AStage.mergeStates
+  rw [List.foldl_flatten]
+
+theorem mergeStates_lookup_own (st : AStage K V X R) (k : K) (hk : k ∈ st.keys) (states : List (KV K V)) :
+    lookupLast k (st.mergeStates states)
+      = mergeVals (st.merge k) ((states.flatten.filter fun kv => decide (kv.1 = k)).map (·.2)) := by
+  rw [mergeStates_eq_foldl, foldl_mergeItem_own st k hk]
+  exact foldl_comb_none _ _
+
+theorem mergeStates_lookup_foreign (st : AStage K V X R) (k : K) (hk : k ∉ st.keys) (states : List (KV K V)) :
+    lookupLast k (st.mergeStates states) = none := by
+  rw [mergeStates_eq_foldl, foldl_mergeItem_foreign st k hk]
+  rfl
+
+/-- in a chain of dicts, a key that dict `i` answers and no LATER dict answers is answered by dict `i` -/
+theorem lookupLast_flatten_at (k : K) (v : V) :
+    ∀ (ls : List (KV K V)) (i : Nat) (l : KV K V), ls[i]? = some l → lookupLast k l = some v →
+      (∀ j l', i < j → ls[j]? = some l' → lookupLast k l' = none) →
+      lookupLast k ls.flatten = some v := by
+  intro ls
+  induction ls with
+  | nil => intro i l h; simp at h
+  | cons l0 rest ih =>
+    intro i l hi hv hlater
+    rw [List.flatten_cons, lookupLast_append]
+    cases i with
+    | zero =>
+      simp only [List.getElem?_cons_zero, Option.some.injEq] at hi
+      subst hi
+      have hnone : lookupLast k rest.flatten = none := by
+        rw [lookupLast_eq_none_iff]
+        intro hm
+        rw [List.map_flatten] at hm
+        obtain ⟨ks, hks, hk⟩ := List.mem_flatten.mp hm
+        obtain ⟨l', hl', rfl⟩ := List.mem_map.mp hks
+        obtain ⟨j, hj, hjl⟩ := List.mem_iff_getElem.mp hl'
+        have hget : (l0 :: rest)[j + 1]? = some l' := by
+          simp only [List.getElem?_cons_succ]
+          rw [List.getElem?_eq_getElem hj, hjl]
+        have := hlater (j + 1) l' (Nat.succ_pos j) hget
+        rw [lookupLast_eq_none_iff] at this
+        exact this hk
+      rw [hnone]
+      exact hv
+    | succ i =>
+      simp only [List.getElem?_cons_succ] at hi
+      rw [ih i l hi hv (fun j l' hij hj => hlater (j + 1) l' (by omega) (by
+        simpa only [List.getElem?_cons_succ] using hj))]
+
+/-- `get_result` of one runner on any state, seen through one key -/
+theorem lookupLast_getResult (st : AStage K V X R) (k : K) (s : KV K V) :
+    lookupLast k (st.getResult s) = if k ∈ st.keys then (lookupLast k s).map (st.result k) else none := by
+  by_cases hk : k ∈ st.keys
+  · rw [if_pos hk]
+    induction s with
+    | nil => rfl
+    | cons kv s ih =>
+      obtain ⟨k0, v0⟩ := kv
+      by_cases h0 : k0 ∈ st.keys
+      · have hc : st.getResult ((k0, v0) :: s) = (k0, st.result k0 v0) :: st.getResult s := by
+          simp [AStage.getResult, h0]
+        rw [hc]
+        simp only [lookupLast, ih]
+        cases lookupLast k s with
+        | some w => rfl
+        | none =>
+          by_cases hkk : k0 = k
+          · subst hkk; simp
+          · simp [hkk]
+      · have hc : st.getResult ((k0, v0) :: s) = st.getResult s := by
+          simp [AStage.getResult, h0]
+        have hkk : ¬ k0 = k := fun e => h0 (e ▸ hk)
+        rw [hc, ih]
+        simp only [lookupLast]
+        cases lookupLast k s with
+        | some w => rfl
+        | none => simp [hkk]
+  · rw [if_neg hk, lookupLast_eq_none_iff]
+    intro hm
+    simp only [AStage.getResult, List.map_map, List.mem_map, List.mem_filter, Function.comp,
+      decide_eq_true_eq] at hm
+    obtain ⟨kv, ⟨_, hown⟩, rfl⟩ := hm
+    exact hk hown
+
+omit [DecidableEq K] in
+theorem chainFinal_getElem? (ksOf : AStage K V X R → List K) (gOf : AStage K V X R → K → V) :
+    ∀ (stages : List (AStage K V X R)) (feeds : List (List X)) (i : Nat),
+      (chainFinal ksOf gOf stages feeds)[i]?
+        = (stages[i]?).map fun st => stageFinal st (ksOf st) (gOf st) ((feeds[i]?).getD []) := by
+  intro stages
+  induction stages with
+  | nil => intro feeds i; simp [chainFinal]
+  | cons s0 rest ih =>
+    intro feeds i
+    cases i with
+    | zero => cases feeds <;> simp [chainFinal]
+    | succ i =>
+      simp only [chainFinal, List.getElem?_cons_succ, ih]
+      cases feeds <;> simp
+
+omit [DecidableEq K] in
+theorem chainFinal_length (ksOf : AStage K V X R → List K) (gOf : AStage K V X R → K → V) :
+    ∀ (stages : List (AStage K V X R)) (feeds : List (List X)),
+      (chainFinal ksOf gOf stages feeds).length = stages.length := by
+  intro stages
+  induction stages with
+  | nil => intro _; rfl
+  | cons s0 rest ih => intro feeds; simp [chainFinal, ih]
+
+end Merge
+end MlModel.StrategyObs
